@@ -80,7 +80,7 @@ def _run_cargo_check(cwd, out_dir, target_dir, workspace=True, log=sys.stderr):
     return r
 
 
-def ensure_facts(log=sys.stderr):
+def ensure_facts(log=sys.stderr, force=False):
     """Return the directory holding facts for /repo's current working tree (extracting if needed)."""
     os.makedirs(CACHE, exist_ok=True)
     lock = open(os.path.join(CACHE, 'lock'), 'w')
@@ -89,6 +89,10 @@ def ensure_facts(log=sys.stderr):
         build_driver(log)
         h = source_hash()
         out = os.path.join(CACHE, 'facts', h)
+        if force and os.environ.get('VSA_FORCED') != h:
+            # thorough tier: do not trust the cache, re-run the compiler (once per process tree)
+            shutil.rmtree(out, ignore_errors=True)
+            os.environ['VSA_FORCED'] = h
         if os.path.exists(os.path.join(out, 'COMPLETE')):
             return out
         t0 = time.time()
